@@ -35,14 +35,14 @@ theorem mavenLex_numTail {a b : List MavenElem} (ha : numTail a = true) (hb : nu
   induction a generalizing b with
   | nil =>
     cases b with
-    | nil => simp [mavenLex_nil_nil, mavenInts]
+    | nil => simp [mavenLex_nil_nil, mavenInts, List.compareLex]
     | cons y bs =>
       simp only [numTail, List.all_cons, Bool.and_eq_true] at hb
-      simp [mavenLex_nil_cons, vsNone_of_num hb.1.1, mavenInts]
+      simp [mavenLex_nil_cons, vsNone_of_num hb.1.1, mavenInts, List.compareLex]
   | cons x as ih =>
     simp only [numTail, List.all_cons, Bool.and_eq_true, beq_iff_eq] at ha
     cases b with
-    | nil => simp [mavenLex_cons_nil, vsNone_of_num ha.1.1, mavenInts]
+    | nil => simp [mavenLex_cons_nil, vsNone_of_num ha.1.1, mavenInts, List.compareLex]
     | cons y bs =>
       simp only [numTail, List.all_cons, Bool.and_eq_true, beq_iff_eq] at hb
       rw [mavenLex_cons_cons, cmp_num_num ha.1.1 hb.1.1 (ha.1.2.trans hb.1.2.symm),
